@@ -1,6 +1,7 @@
 import os, sys, subprocess, concurrent.futures
 sys.path.insert(0, os.path.dirname(os.path.dirname(os.path.abspath(__file__))))
-from srcgen import regen_src  # pre-build generator: crc.go / encoding.go -> Gen/SrcPure.v
+from srcgen import regen_src
+from srcreplay import replay_src  # translated source run in Coq vs the real outputs  # pre-build generator: crc.go / encoding.go -> Gen/SrcPure.v
 BUILD = os.environ.get("VERIF_BUILD") or os.path.join(os.path.dirname(os.path.dirname(os.path.dirname(os.path.abspath(__file__)))), "build")
 
 def crc_step_exhaustive(tmp, tier, seed, goenv):
@@ -36,7 +37,7 @@ def crc_step_exhaustive(tmp, tier, seed, goenv):
 PROP = {
     "coq": ["C06", "C06b", "C06c", "C06s"],
     "pre": [regen_src],
-    "extra": [crc_step_exhaustive],
+    "extra": [crc_step_exhaustive, replay_src({'crc'})],
     "exhaustive": True,
     "rule": "CRC: the complete one-byte transition function (2^24 pairs) is compared exhaustively; whole-string, "
             "chunked and acceptance-test entry points on structured and random strings of length 0..300. Client level (scenario rtuflip): valid RTU replies of random valid requests under single-bit flips (all for frames <= 16 bytes, strided above), 24 random bit pairs, 16 random bursts <= 16 bits, 4 random CRC fields, plus the crafted F8 family; each followed by a clean exchange; P = first call not a success and second call a success."
